@@ -77,7 +77,7 @@ CLAIMS = {
         technique="Lean 4 theorems over ast-regenerated shapes of the three copies + three-route differential correspondence",
         ref="§3 C05"),
     "C06": dict(
-        text="Model/Lang.lean is a reference evaluator for kernel sources (subroutines, recursion, closures, loops, branches, device "
+        text="C06_complete_program: every lookup left anywhere in the compiled program names something the spec does not define; C06_idempotent: a second run of the pass changes nothing. Model/Lang.lean is a reference evaluator for kernel sources (subroutines, recursion, closures, loops, branches, device "
              "calls, parallel blocks, gates, fills, measurements, spec lookups); Model/Inject.lean is InjectSpecRule/InjectSpecsPass on "
              "that language. Theorem C06_inject_preserves: for every program, entry point, arguments and fuel, the injected program "
              "run with no spec available returns the same value, events or error as the original run against the spec (induction on "
